@@ -261,7 +261,8 @@ namespace OP2Utility::Archive
 			IndexEntry indexEntry;
 
 			uint64_t fileSize = volInfo.fileStreamReaders[i]->Length();
-			if (fileSize > UINT32_MAX) {
+			// The block header stores the length in 31 bits and the index entry size field is a signed 32 bit value
+			if (fileSize > INT32_MAX) {
 				throw std::runtime_error("File " + volInfo.filesToPack[i] +
 					" is too large to fit inside a volume archive. Writing volume " + volumeFilename + " aborted.");
 			}
@@ -300,7 +301,12 @@ namespace OP2Utility::Archive
 		for (std::size_t i = 1; i < volInfo.fileCount(); ++i)
 		{
 			const IndexEntry& previousIndex = volInfo.indexEntries[i - 1];
-			volInfo.indexEntries[i].dataBlockOffset = (previousIndex.dataBlockOffset + previousIndex.fileSize + 11) & ~3;
+			// Accumulate in 64 bits. The offset field in the index holds 32 bits
+			const uint64_t dataBlockOffset = (static_cast<uint64_t>(previousIndex.dataBlockOffset) + previousIndex.fileSize + 11) & ~static_cast<uint64_t>(3);
+			if (dataBlockOffset > UINT32_MAX) {
+				throw std::runtime_error("The packed files are too large in total to fit inside a volume archive. Writing volume " + volumeFilename + " aborted.");
+			}
+			volInfo.indexEntries[i].dataBlockOffset = static_cast<uint32_t>(dataBlockOffset);
 		}
 	}
 
